@@ -167,4 +167,93 @@ def genMaskBit (m : Nat) : Int := Id.run do
        return str(len(binary_str.rstrip('0')))
 -/
 
+/-- `<iface> in own.network` (`IPv4Network.__contains__` of an address object: `ip & netmask == network_address`;
+the hand model's `inNet`) -/
+def inNetwork (c : Netconfig) (a : IpIface) : Bool := inNet c a.1
+/-- `ipaddress.ip_interface("%s/%s" % (self.ip_start, self.mask_bit))`: the property `ip_start` is
+`str(IPv4Address(self.net_ip) + minint)` (AddressValueError when it leaves the address space); `minint` is the hand
+model's `minOff` (NOT tied here) -/
+def ipStartIface (c : Netconfig) : Except Err IpIface := do
+  let a ← ipv4 (Int.ofNat c.netIp + Int.ofNat (minOff c.range)); pure (a.toNat, c.bits)
+def ipEndIface (c : Netconfig) : Except Err IpIface := do
+  let a ← ipv4 (Int.ofNat c.netIp + Int.ofNat (maxOff c.range)); pure (a.toNat, c.bits)
+/-- `interface.netconfig` / `self` as object references -/
+abbrev NcRef := Option Nat
+
+/-- `VMNetconfig.validate` of avocado_i2n/vmnet/netconfig.py, cut and rewritten by harness/pygen_pxnet.py: the statements in front of the loops; the dictionary `addresses` (distinct constant keys host, ip_start, ip_end; only iterated) is the list of its values in insertion order; `c.host` is `none` for None and for the empty string -/
+def genValidateAddresses (c : Netconfig) : Except Err (List IpIface) := do
+  let mut addresses : List IpIface := []
+  if c.host.isSome then
+    addresses := (addresses ++ [(c.host.getD 0, c.bits)])
+  let _ ← ipStartIface c
+  let _ ← ipEndIface c
+  addresses := (addresses ++ [(← ipStartIface c)])
+  addresses := (addresses ++ [(← ipEndIface c)])
+  return addresses
+
+/- the Python it was generated from (comments and docstring dropped):
+   def validate_addresses():
+       addresses = []
+       if self.host_ip is not None and self.host_ip != '':
+           addresses += [ipaddress.ip_interface('%s/%s' % (self.host_ip, self.mask_bit))]
+       assert self.ip_start is not None
+       assert self.ip_end is not None
+       addresses += [ipaddress.ip_interface('%s/%s' % (self.ip_start, self.mask_bit))]
+       addresses += [ipaddress.ip_interface('%s/%s' % (self.ip_end, self.mask_bit))]
+       return addresses
+-/
+
+/-- `VMNetconfig.validate` of avocado_i2n/vmnet/netconfig.py, cut and rewritten by harness/pygen_pxnet.py: the body of `for key in addresses.keys():`; `a` = `addresses[key]` -/
+def genValidateAddress (c : Netconfig) (a : IpIface) : Except Err (Unit) := do
+  if (!(inNetwork c a)) then
+    throw Err.testError
+  return ()
+
+/- the Python it was generated from (comments and docstring dropped):
+   def validate_address():
+       if not own.network.__contains__(addresses[key]):
+           raise exceptions.TestError('The predefined %s %s is not in the netconfig %s' % (key, addresses[key], self.net_ip))
+-/
+
+/-- `VMNetconfig.validate` of avocado_i2n/vmnet/netconfig.py, cut and rewritten by harness/pygen_pxnet.py: the body of `for interface in self.interfaces.values():`; `n` = self (the netconfig object), `i` = the interface object, `f` = its attributes; `==` on objects is identity -/
+def genValidateIface (n : Nat) (c : Netconfig) (i : Nat) (f : Iface) : Except Err (Unit) := do
+  if (!(f.nc == (some n : NcRef))) then
+    throw Err.assertion
+  if (!((← ifsGet c f.ip) == i)) then
+    throw Err.assertion
+  let mut ip : IpIface := (f.ip, c.bits)
+  if (!(inNetwork c ip)) then
+    throw Err.testError
+  return ()
+
+/- the Python it was generated from (comments and docstring dropped):
+   def validate_interface():
+       if not interface.netconfig == self:
+           raise AssertionError('assert')
+       if not self.interfaces[interface.ip] == interface:
+           raise AssertionError('assert')
+       ip = ipaddress.ip_interface('%s/%s' % (interface.ip, self.mask_bit))
+       if not own.network.__contains__(ip):
+           raise exceptions.TestError('The interface with ip %s is not in the netconfig %s' % (ip, self.net_ip))
+-/
+
+/-- `for key in addresses.keys(): <genValidateAddress>` -/
+def genValidateAddrs (c : Netconfig) : List IpIface → Except Err Unit
+  | [] => pure ()
+  | a :: rest => do
+    genValidateAddress c a
+    genValidateAddrs c rest
+/-- `for interface in self.interfaces.values(): <genValidateIface>` -/
+def genValidateIfaces (s : Net) (n : Nat) (c : Netconfig) : List (Nat × Nat) → Except Err Unit
+  | [] => pure ()
+  | (_, i) :: rest => do
+    genValidateIface n c i (s.iface i)
+    genValidateIfaces s n c rest
+/-- `validate` of netconfig object `n` (skeleton matched structurally): the statements in front of the loops,
+the loop over the addresses, the loop over the interfaces -/
+def genValidate (s : Net) (n : Nat) : Except Err Unit := do
+  let c := s.nc n
+  genValidateAddrs c (← genValidateAddresses c)
+  genValidateIfaces s n c c.ifs
+
 end I2N.Extracted.GenNet
